@@ -24,6 +24,10 @@ ASSUMES = ["C06_sum_one_Q: the counter is not empty (total > 0)",
            "counts below 2^53 (exact in binary64)"]
 
 COVERAGES = [0.6, 1.0, 0.25, 0.0]
+BOUNDARY_COVERAGES = [0.9999999999, 1e-12, 1 - 2.0 ** -40, 1e-9, 0.999999, 2.0 ** -30]
+# files with a fixed name: rewritten by every training, also when their counter is empty this time
+STALE_FIXED = ["Years/1.txt", "Context/1.txt", "Emails/email_providers.txt", "Websites/website_hosts.txt",
+               "Websites/website_prefixes.txt", "Grammar/grammar.txt", "Grammar/raw_grammar.txt", "Prince/grammar.txt"]
 
 
 def file_lines(tree, rel, enc):
@@ -160,7 +164,10 @@ def oracle(rec, rep, stale=()):
             exact_m = Fraction(n) / Fraction(cov) - n          # N*(1/coverage - 1), coverage = the binary64 value
             exact_p = exact_m / (S + exact_m)
             p = float(gd["M"])
-            if exact_p and abs(Fraction(p) - exact_p) / exact_p > Fraction(1, 10 ** 12):
+            # the code computes the count in binary64 as (N / c) - N: its absolute error is bounded by the rounding of
+            # N / c (cancellation when c is next to 1), which moves P(M) = m / (S + m) by at most S / (S + m)^2 times that
+            slack = Fraction(S) / (S + exact_m) ** 2 * (Fraction(n) / Fraction(cov)) * Fraction(1, 2 ** 50)
+            if exact_p and abs(Fraction(p) - exact_p) > exact_p * Fraction(1, 10 ** 12) + slack:
                 vio.append({"sig": "C06:markov-count", "what": "P(M) = %r, N*(1/c-1)/(S+N*(1/c-1)) = %r (N=%d, c=%r, S=%d)"
                             % (p, float(exact_p), n, cov, S), "replay": rep})
             if S == n and abs(p - (1 - cov)) > 1e-12:
@@ -260,6 +267,9 @@ def gen_case(rng, i):
     else:
         entries = T.gen_entries(rng, enc, specials=rng.sample(T.special_chars_for(enc, rng), 1) if rng.random() < 0.3 else ())
     cov = COVERAGES[i % 4] if i % 9 != 8 else rng.choice([0.1, 1 / 3, 0.999, 0.5, 0.75, 0.01])
+    if i % 10 == 7:
+        # legal values next to the two special cases 0 and 1: the M pseudo-count N*(1/c - 1) is tiny / huge but not 0 / everything
+        cov = BOUNDARY_COVERAGES[(i // 10) % len(BOUNDARY_COVERAGES)]
     return enc, flavour, entries, cov
 
 
@@ -272,7 +282,7 @@ def run_one(sc, tag, enc, entries, cov, data, prefix, stale, save_sensitive=Fals
         for rel in stale:
             os.makedirs(os.path.dirname(os.path.join(rd, rel)), exist_ok=True)
             with open(os.path.join(rd, rel), "w") as f:
-                f.write("stale\t0.5\n")
+                f.write("stale\t0.5\nstale2\t0.5\n")
     return p, T.train_inprocess(p, enc, rd, coverage=cov, prefixcount=prefix, save_sensitive=save_sensitive)
 
 
@@ -293,6 +303,9 @@ def run(ctx):
             continue
         data = T.build_file(rng, entries, enc, rng.choice(["plain", "mixed"]), rng.choice([b"\n", b"\r\n"]))
         stale = ["Alpha/99.txt", "Digits/77.txt", "Capitalization/99.txt", "Other/stale.txt", "Keyboard/4.txt"] if i % 3 == 0 else []
+        if i % 3 == 1:
+            # a retrain of an existing rule name: what an earlier training left in the fixed-name lists must not survive
+            stale = list(STALE_FIXED)
         sens = i % 5 == 4
         path, rec = run_one(sc, str(i), enc, entries, cov, data, False, stale, sens)
         rep = {"enc": enc, "coverage": cov, "file": data.hex(), "stale": stale, "save_sensitive": sens}
@@ -352,7 +365,7 @@ def run(ctx):
         ("tally", "list str * list (str * N)", "check_tally", groups["tally"]),
         ("ltally", "list str * list (N * list (str * N))", "check_ltally", groups["ltally"])], per=70)
     rule = ("generated lists (as C19; flavours: mixed, e-mail/website dominated, all counts tied, 1-3 passwords, 15-30 passwords) x "
-            "coverage in {0, .25, .6, 1, random} x 4 encodings, stale files planted in the rule folders of every third run; oracle: "
+            "coverage in {0, .25, .6, 1, random} x 4 encodings, boundary coverages next to 0 and 1, stale files planted in the length-indexed folders of every third run and in every fixed-name list (Years, Context, Emails, Websites, Grammar, Prince) of every third run = a retrain of an existing rule name; oracle: "
             "recount from the section lists the real parser produced, every *.txt = [(v, count/total)] in most-common order with "
             "exact division, M line per coverage, E/W only in raw; determinism: trainer.py twice with different PYTHONHASHSEED; "
             "non-trivial = tied counts, a single-item class or an unsupported structure; distinct by (encoding, coverage, sequence)")
